@@ -21,6 +21,12 @@ fn main() {
         ("C04", Some(r)) => checks::c04::replay(&ctx, &r["case"]),
         ("C12", None) => checks::c12::run(&ctx),
         ("C12", Some(r)) => checks::c12::replay(&ctx, &r["case"]),
+        ("C17", None) => checks::c17::run(&ctx),
+        ("C17", Some(r)) => checks::c17::replay(&ctx, &r["case"]),
+        ("C19", None) => checks::c19::run(&ctx),
+        ("C19", Some(r)) => checks::c19::replay(&ctx, &r["case"]),
+        ("C16", None) => checks::c16::run(&ctx),
+        ("C16", Some(r)) => checks::c16::replay(&ctx, &r["case"]),
         ("C05", None) => checks::cfgstate::run_c05(&ctx),
         ("C06", None) => checks::cfgstate::run_c06(&ctx),
         ("C07", None) => checks::cfgstate::run_c07a(&ctx),
